@@ -127,6 +127,13 @@ def make_case(rng, gen, slot):
         filt = rng.choice(['SIZE', 'PREFIX', 'POSITION', 'SUFFIX', 'OVERLAP', 'OVERLAP'])
         case['filt'] = filt
         case['tok'] = {'kind': 'ws', 'rs': 1}
+        if filt == 'OVERLAP' and rng.random() < 0.4:
+            # q-gram tokenizers: with padding the empty string has the token made of the padding characters
+            case['tok'] = {'kind': 'qg', 'q': 2, 'pad': rng.choice([1, 1, 0]), 'rs': 1}
+            for side in ('L', 'R'):            # an empty string on both sides in half of these cases
+                mi = case[side]['cols'].index('m')
+                if rng.random() < 0.7 and case[side]['rows'][0][mi] is not None:
+                    case[side]['rows'][0][mi] = ''
         if filt == 'OVERLAP':
             case['op'] = rng.choice(['>=', '>', '='])
             case['t'] = rng.choice([[1, 1], [1, 1], [2, 1], [3, 1], [3, 2], [5, 2]])    # the overlap size may be fractional
@@ -172,7 +179,7 @@ def run_case(item):
               'v': [], 'nonempty': int(bool(r[rattr])) if not record.is_missing(r[rattr]) else 0,
               'c': [book.code(r[c]) for c in rtable.columns]} for r in rtable.to_dict('records')]
     # token ids (set semantics) for the jaccard / overlap judgements
-    oracle = sm.WhitespaceTokenizer(return_set=True)
+    oracle = record.make_tokenizer(case['tok'], return_set=True)
     vocab = sorted({t for tab, col in ((ltable, 'm'), (rtable, rattr)) for v in tab[col].tolist()
                     if not record.is_missing(v) for t in oracle.tokenize(v)})
     ids = {t: j + 1 for j, t in enumerate(vocab)}
